@@ -306,7 +306,7 @@ Definition replace_empty (E : env) : env :=
   map (fun d => if mem name name_eqb em (fst d) then (fst d, TPrim PEmpty) else d) E.
 
 Definition magic : list N := [68; 73; 68; 76].
-Definition dec_header (max_table : N) (bs : list N) : res (env * list ty * list N) :=
+Definition dec_header_gen (replace : bool) (max_table : N) (bs : list N) : res (env * list ty * list N) :=
   match bs with
   | 68 :: 73 :: 68 :: 76 :: r =>
       do n <- read_u64 r;
@@ -319,10 +319,15 @@ Definition dec_header (max_table : N) (bs : list N) : res (env * list ty * list 
       | Some E =>
           if meths_are_funcs E then
             match conv_refs (fst n) (fst args) with
-            | Some ts => Ok (replace_empty E, ts, snd args)
+            | Some ts => Ok (if replace then replace_empty E else E, ts, snd args)
             | None => Err EMal
             end
           else Err EMal
       end
   | _ => Err EMal
   end.
+
+(* the header as the implementation's parser returns it (uninhabited record cycles replaced by empty) ... *)
+Definition dec_header : N -> list N -> res (env * list ty * list N) := dec_header_gen true.
+(* ... and as written on the wire *)
+Definition dec_header_raw : N -> list N -> res (env * list ty * list N) := dec_header_gen false.
